@@ -163,6 +163,15 @@ func (rn *runner) runSchedule(sc schedule, worker int) {
 	} else {
 		c.Distinct("cluster-configuration", "defaults")
 	}
+	if sc.Index%2 == 1 {
+		// odd schedules: no flush of a cold shard by itself, and no forced flush after the warm-up
+		// (see below): the first fault hits stores that have never flushed
+		if extra == nil {
+			extra = map[string][]string{}
+		}
+		extra["data.memtable"] = append(extra["data.memtable"], `write-cold-duration = "1h"`, `force-snapShot-duration = "1h"`)
+		c.Distinct("cluster-configuration", "data.write-cold-duration=1h(odd schedules: stores never flush before the first fault)")
+	}
 	cl, err := proc.NewCluster(c.RepoDir, c.Scratch, dir, base, false, extra)
 	if err != nil {
 		c.Broken("cluster: %v", err)
@@ -309,10 +318,17 @@ func (rn *runner) runSchedule(sc schedule, worker int) {
 	// both shards of the partition start clean on every replica (memtables flushed): from here
 	// on only the phases of a kill-after-idle-shard-flush fault leave rows of one shard
 	// unflushed while the other shard is flushed
-	for i := 0; i < 3; i++ {
-		if err := cl.StoreCtl(i, "POST", "/verif/flush", ""); err != nil {
-			c.Inconclusive("forced-flush-after-warm-up-failed", 1)
+	// ... except in the odd schedules: there the first fault hits stores that have never flushed
+	// (no raft snapshot beyond the configuration-only one exists, the whole history is log)
+	if sc.Index%2 == 0 {
+		for i := 0; i < 3; i++ {
+			if err := cl.StoreCtl(i, "POST", "/verif/flush", ""); err != nil {
+				c.Inconclusive("forced-flush-after-warm-up-failed", 1)
+			}
 		}
+		c.Count("schedules-with-a-flush-before-the-first-fault", 1)
+	} else {
+		c.Count("schedules-whose-first-fault-hits-stores-that-never-flushed", 1)
 	}
 	down := -1
 	var unknownWrites, ackedWrites, failedReads, okReads int64
